@@ -729,6 +729,8 @@ def run_check(pid, tier, seed):
         if sig in seen_sigs:
             continue
         seen_sigs.add(sig)
+        if any(sig.startswith(k["sig"]) for k in known_hits):
+            continue  # another instance of a known finding that was already reproduced in this run
         if len(violations) >= 5:
             break
         ok, fresh = reproduce(b["trace"], case, b["prop"], b["clause"], vh)
